@@ -554,7 +554,7 @@ def it_elems_slots(eng, it, st, where, pc):
     return out
 
 
-@model('Iterator::next', r'^<(?:std::slice::Iter<.+>|std::vec::IntoIter<.+>|std::array::IntoIter<.+>|Zip<.+>|std::iter::Zip<.+>|Flatten<.+>|FlatMap<.+>|Filter<.+>|std::iter::Map<.+>|FilterMap<.+>|std::iter::Flatten<.+>|std::iter::Filter<.+>|std::iter::FlatMap<.+>) as Iterator>::next$')
+@model('Iterator::next', r'^<(?:std::str::Bytes<.+>|std::slice::Iter<.+>|std::vec::IntoIter<.+>|std::array::IntoIter<.+>|Zip<.+>|std::iter::Zip<.+>|Flatten<.+>|FlatMap<.+>|Filter<.+>|std::iter::Map<.+>|FilterMap<.+>|std::iter::Flatten<.+>|std::iter::Filter<.+>|std::iter::FlatMap<.+>) as Iterator>::next$')
 def m_iter_next(eng, m, args, dest_ts, st, where):
     r = args[0]
     it = eng.read_ref(st, r)
@@ -613,7 +613,7 @@ def _next_counted(eng, r, it, oty, st, where):
     return simp(res)
 
 
-@model('IntoIterator for iterators', r'^<(?:Flatten<.+>|FlatMap<.+>|Filter<.+>|std::iter::Map<.+>|FilterMap<.+>|std::vec::IntoIter<.+>|std::iter::\w+<.+>|Zip<.+>|Enumerate<.+>|Chain<.+>|Take<.+>|Skip<.+>|Rev<.+>) as IntoIterator>::into_iter$')
+@model('IntoIterator for iterators', r'^<(?:std::str::Bytes<.+>|Flatten<.+>|FlatMap<.+>|Filter<.+>|std::iter::Map<.+>|FilterMap<.+>|std::vec::IntoIter<.+>|std::iter::\w+<.+>|Zip<.+>|Enumerate<.+>|Chain<.+>|Take<.+>|Skip<.+>|Rev<.+>) as IntoIterator>::into_iter$')
 def m_iter_identity(eng, m, args, dest_ts, st, where):
     return deref(eng, st, args[0])
 
